@@ -13,9 +13,9 @@ TABLE = "data/no_food_trade/computer_readable_combined.csv"
 
 
 def run(index, rep):
-    acc(index, rep)
-    sel(index, rep)
-    once(index, rep)
+    rep.guard(acc, index, rep)
+    rep.guard(sel, index, rep)
+    rep.guard(once, index, rep)
 
 
 def _stores(fn, name):
